@@ -81,6 +81,7 @@ def cases(tier):
                 out.append(dict(base, design=d, core=7, re=re, wall='no_flow', ducts='2w'))
                 for wall in ('none', 'flow'):
                     out.append(dict(base, design=d, core=7, re=re, wall=wall, flows='spread', power='asym'))
+                    out.append(dict(base, design=d, core=7, re=re, wall=wall, flows='spread', power='asym', ducts='2f'))
             for wall in ('none', 'flow'):
                 out.append(dict(base, design=d, core=7, re='vlow', wall=wall, flows='near', power='asym'))
         for ca in (True,):
